@@ -84,14 +84,14 @@ PROPS = {
         "assumptions": ["informer caches are monotone per kind", "run objects are removed by others only after their Trial completed", "algorithm service returns fresh names"],
     },
     "C07": {
-        "prop_files": ['Katib/Props/C07.lean', 'Katib/Props/C07World.lean', 'Katib/Props/C07Named.lean'],
+        "prop_files": ['Katib/Props/C07.lean', 'Katib/Props/C07World.lean', 'Katib/Props/C07Named.lean', 'Katib/Props/C07Quiescent.lean'],
         "streams": [('SIM', {'quick': 240, 'thorough': 8000}), ('C07J', {'quick': 1500, 'thorough': 30000})],
         "rule": "seeded random schedules of the three real reconcilers on the fake client (1-2 experiments, optionally equally named in two namespaces; maxTrialCount 1-4/unset, parallel 1-3, maxFailed, goal, three resume policies, early stopping, retain, push collector), ops = reconciles with per-kind monotone lagging views (random lag, stalled informers, one kind's cache held for several reconciles - also exactly at the Experiment copy from before its verdict), write-fault masks, abort points, algorithm reply faults (short/long/error, rules RPC error), job outcomes, metric arrival (also after the verdict), early stop, deployment ready, external removal of a completed trial's run object, a run-object-creating reconcile cut off before its status write with the job finishing before the retry; scripted RPC failures cycle through gRPC status codes; then fault-free settling to quiescence, a quiescence probe, optionally one or two budget raises each with a second settling, and optionally a teardown in which Trials are deleted and reconciled while the database call or the finalizer write fails; every op's write log and the whole store are compared with the Lean model; a case = one schedule; distinct = distinct op sequence; stream C07J: hand-made Trials whose run spec carries the Trial's name and {the Trial's, another, no} namespace and {no, a plain, a controller} owner reference of its own, three reconciles of the real trial controller on the fake client, all Jobs of all namespaces judged",
         "trusted": ["controller-runtime fake client stands in for the kube-apiserver (rv conflicts, status subresource, AlreadyExists)",
                     "fake algorithm / early-stopping / DB-manager services", "typed reads inside a reconcile come from a snapshot (informer cache), run objects are read live"],
         "modelled": ["ReconcileExperiment.Reconcile / ReconcileSuggestion.Reconcile / ReconcileTrial.Reconcile and helpers as Katib.Ctl.expPlan / sugPlan / trialPlan",
                      "API-server semantics as Katib.Ctl.applyCall", "the op/step state machine Katib.Ctl.step"],
-        "level_text": 'C07_deleted_only_when_completed: over every list of simulator operations (no hypothesis on the schedule) a run object that existed in any earlier snapshot and is gone belongs to a Trial that still exists and is completed, and run-object keys are unique (at most one run object per Trial at any time); plan-level: C07_run_object_guard (created only for a not-completed Trial without run object, deleted only for a completed non-retained one), C07_at_most_one_create, C07_db_before_finalizer, C07_finalizer_release_only_after_db; correspondence + oracle on generated schedules',
+        "level_text": 'C07_deleted_only_when_completed: over every list of simulator operations (no hypothesis on the schedule) a run object that existed in any earlier snapshot and is gone belongs to a Trial that still exists and is completed, and run-object keys are unique (at most one run object per Trial at any time); plan-level: C07_run_object_guard (created only for a not-completed Trial without run object, deleted only for a completed non-retained one), C07_at_most_one_create, C07_db_before_finalizer, C07_finalizer_release_only_after_db; correspondence + oracle on generated schedules; C07_quiescent_cleanup: for every store in which the trial controller has no write to issue for a Trial that is not being deleted, the Trial holds its finalizer and is Created, a completed Trial without retain has no run object and a Trial that is not completed has one; C07_retained_not_deleted: the plan of a retaining Trial never deletes the run object',
         "level_note": "trusted: Lean kernel; harness/check; fake client as API server; views monotone per kind; the tie between Lean model and Go controllers is differential (sampling)",
         "assumptions": ["informer caches are monotone per kind", "run objects are removed by others only after their Trial completed", "algorithm service returns fresh names"],
     },
